@@ -203,12 +203,18 @@ func setup() (*world, error) {
 	os.WriteFile(filepath.Join(wd.root, "d1", "index.html"), []byte("<html>INDEX-d1</html>"), 0o644)
 	os.WriteFile(filepath.Join(wd.root, "d2", "x.txt"), []byte("x-in-d2"), 0o644)
 	os.WriteFile(filepath.Join(wd.root, "d2", "y.txt"), []byte("y-in-d2"), 0o644)
+	// a directory whose only index file has a name too long to carry the compressed-copy
+	// suffix (stands for any directory the server cannot write the compressed copy into)
+	os.MkdirAll(filepath.Join(wd.root, "d4"), 0o755)
+	os.WriteFile(filepath.Join(wd.root, "d4", longIndex), []byte(indexBody("d4")), 0o644)
 	// a directory whose generated listing is larger than the 8 KiB small-file threshold
 	os.MkdirAll(filepath.Join(wd.root, "d3"), 0o755)
 	for i := 0; i < 200; i++ {
 		os.WriteFile(filepath.Join(wd.root, "d3", fmt.Sprintf("entry-%03d.txt", i)), []byte("e"), 0o644)
 	}
 	os.WriteFile(filepath.Join(wd.root, "t.txt"), bytes.Repeat([]byte("compress me "), 500), 0o644)
+	// a name so long that the name of the compressed copy (name + suffix) is not a valid file name
+	os.WriteFile(filepath.Join(wd.root, longName), bytes.Repeat([]byte("compress me "), 500), 0o644)
 	opt := func() *config.Options { return rig.Options(nil) }
 	mk := func(name string, fs *app.FS, ranges bool) {
 		fs.Root = wd.root
@@ -222,8 +228,19 @@ func setup() (*world, error) {
 	mk("index", &app.FS{AcceptByteRange: true, IndexNames: []string{"index.html"}, GenerateIndexPages: true, PathRewrite: strip}, true)
 	// several index names of which the first does not exist, compression on: the lookup
 	// of the later names / the generated listing runs on the compressed-file path too
-	mk("index-compress", &app.FS{AcceptByteRange: true, Compress: true, IndexNames: []string{"missing.html", "index.html"}, GenerateIndexPages: true, PathRewrite: strip}, true)
+	mk("index-compress", &app.FS{AcceptByteRange: true, Compress: true, IndexNames: []string{"missing.html", "index.html", longIndex}, GenerateIndexPages: true, PathRewrite: strip}, true)
 	return wd, nil
+}
+
+var longName = strings.Repeat("n", 246) + "t.txt"
+var longIndex = strings.Repeat("i", 245) + ".html"
+
+func indexBody(dir string) string {
+	b := "<html>INDEX-" + dir + "</html>"
+	if dir == "d4" {
+		b += strings.Repeat(" compressible padding", 300) // large and repetitive enough to be worth compressing
+	}
+	return b
 }
 
 type reqSpec struct {
@@ -280,7 +297,7 @@ func judge(w *mon.W, en *engine, q reqSpec, m *wire.Message, wd *world) string {
 		if m.Status != 200 {
 			return fmt.Sprintf("status %d for a directory with an index file, want 200", m.Status)
 		}
-		if q.method == "GET" && string(m.Body) != "<html>INDEX-d1</html>" {
+		if want := indexBody(strings.TrimSuffix(q.file, "/")); q.method == "GET" && string(m.Body) != want {
 			return fmt.Sprintf("index body %q", trunc(string(m.Body), 80))
 		}
 		return ""
@@ -310,7 +327,7 @@ func judge(w *mon.W, en *engine, q reqSpec, m *wire.Message, wd *world) string {
 	}
 	L := q.L
 	file := content(L, L)
-	if q.file == "t.txt" {
+	if q.file == "t.txt" || q.file == longName {
 		file = bytes.Repeat([]byte("compress me "), 500)
 		L = len(file)
 	}
@@ -536,6 +553,9 @@ func work(w *mon.W) {
 			}
 			qs = []reqSpec{{method: "GET", file: "d1/", kind: "index", L: -1}, {method: "HEAD", file: "d1/", kind: "index", L: -1}, {method: "GET", file: "d2/", kind: "listing", L: -1}, {method: "GET", file: "f5.bin", L: 5, kind: "file", rng: "bytes=1-3"},
 				{method: r.Str("GET", "HEAD"), file: "d3/", kind: "listing", L: -1}, {method: "GET", file: "d3/", kind: "listing", L: -1}}
+			if en == wd.engines[4] {
+				qs = append(qs, reqSpec{method: "GET", file: "d4/", kind: "index", L: -1}, reqSpec{method: "HEAD", file: "d4/", kind: "index", L: -1})
+			}
 			for i := range qs {
 				qs[i].gzip = gz
 			}
@@ -552,6 +572,14 @@ func work(w *mon.W) {
 			qs = []reqSpec{q, h, plain, rg, rh, q}
 			if r.Chance(4) {
 				qs = []reqSpec{rg, q, rh, rg, plain}
+			}
+			if r.Chance(5) {
+				lq := reqSpec{method: "GET", file: longName, L: 6000, kind: "file", gzip: true}
+				lh := lq
+				lh.method = "HEAD"
+				lp := lq
+				lp.gzip = false
+				qs = []reqSpec{lq, lh, lp, lq}
 			}
 		}
 		c.Detail = func() interface{} {
